@@ -111,6 +111,104 @@ def numpy_pairs(M, rec, rng, g, desc, pars, npoints):
             rec.sample({"desc": desc, "vals_with_negative_entries": vals, "combinations": 64})
 
 
+def stress_case(g, rng):
+    """An admissible (non-negative) case whose PLAIN next speeds, densities and queues are partly
+    negative: slow traffic running into a jam (negative v+), short fast sparse segments with a long
+    sampling time (negative rho+), an unlimited simplified ramp releasing more than it holds
+    (negative w+)."""
+    import copy
+
+    for _try in range(50):
+        _, desc = g.network(rng.choice(("chain", "ramp", "merge", "bifurcation", "random")))
+        if desc["origins"]:
+            break
+    desc = copy.deepcopy(desc)
+    for l in desc["links"]:
+        l["L"] = round(rng.uniform(0.3, 0.45), 3)
+    for o in desc["origins"]:
+        if o["kind"] == "simple" and rng.random() < 0.7:
+            o["eq"] = "unlimited"
+    if not any(o["kind"] == "simple" and o["eq"] == "unlimited" for o in desc["origins"]):
+        o = desc["origins"][0]  # every valid network has at least one origin or is a pure ring
+        o.update(kind="simple", eq="unlimited", C=2500.0)
+    pars = g.pars()
+    pars["T"] = 15.0 / 3600.0
+    _, vals = g.values(desc, "interior", allow_inf=False)
+    for l in desc["links"]:
+        e = vals[l["id"]]
+        for i in range(l["N"]):
+            m = rng.random()
+            if m < 0.35:      # slow vehicle just upstream of a jam
+                e["rho"][i], e["v"][i] = rng.uniform(15, 30), rng.uniform(2, 8)
+                if i + 1 < l["N"]:
+                    e["rho"][i + 1], e["v"][i + 1] = rng.uniform(150, 175), rng.uniform(1, 4)
+            elif m < 0.7:     # sparse and fast: more leaves than is there
+                e["rho"][i], e["v"][i] = rng.uniform(0.5, 4), rng.uniform(110, 130)
+    for o in desc["origins"]:
+        if o["kind"] == "simple" and o["eq"] == "unlimited":
+            vals[o["id"]].update(q=rng.uniform(3000, 6000), d=rng.uniform(0, 300), w=rng.choice((0.0, rng.uniform(0, 2))))
+    return desc, pars, vals
+
+
+def reference_pairs(M, rec, rng, g, n_cases):
+    """Second, independent oracle: on non-negative inputs the initial clamps are the identity, so the
+    step with options must equal clamp_next(REFERENCE MODEL) — this sees a clamp that is applied
+    although its option is off (which a library-vs-library comparison cannot)."""
+    from vf import oracle as OO, refmodel as R
+
+    NE, CE = drive.engines(M)
+    for _ in range(n_cases):
+        desc, pars, vals = stress_case(g, rng)
+        if R.is_singular(desc, vals):
+            continue
+        try:
+            plain = R.ref_step(desc, vals, pars, {})
+        except (R.Singular, R.Inadmissible):
+            continue
+        for eid, d in plain.next.items():
+            for name, v in d.items():
+                if any(x < 0 for x in (v if isinstance(v, list) else [v])):
+                    rec.seen("negative_plain_quantities", name)
+        built = D.build(M, desc, D.random_ops(desc, rng))
+        kw = drive.step_pars(pars)
+        for opts in combos():
+            nxt_opts = {k: True for k in opts if "_next_" in k}
+            ref = R.ref_step(desc, vals, pars, nxt_opts)
+            try:
+                built.net.step(init_conditions=drive.np_init(built, vals, "vec1"), engine=NE(), **opts, **kw)
+                got = drive.read_next(built)
+            except Exception as e:
+                rec.violation(f"{PROP}:numpy: step with options raised {type(e).__name__}", {"desc": desc, "opts": opts, "exception": repr(e)[:300]})
+                break
+            rec.count("pairs_reference")
+            bad = None
+            for eid, d in ref.next.items():
+                for name, v in d.items():
+                    es = v if isinstance(v, list) else [v]
+                    gs = got[eid][name] if isinstance(got[eid][name], list) else [got[eid][name]]
+                    ms = ref.mag[eid][name]
+                    ms = ms if isinstance(ms, list) else [ms]
+                    for i, (x, y, m) in enumerate(zip(gs, es, ms)):
+                        rec.count("scalars_compared")
+                        alt = ref.vdrop_alt.get(eid) if (name == "v" and i == len(es) - 1) else None
+                        if not OO.close(x, y, m) and not (alt is not None and OO.close(x, alt, m)):
+                            bad = (eid, name, i, x, y)
+                            break
+                    if bad:
+                        break
+                if bad:
+                    break
+            if bad:
+                eid, name, i, x, y = bad
+                clamped_without_option = (y < 0 and x == 0.0)
+                what = (f"{name}+ is clamped at zero although its option is off" if clamped_without_option
+                        else f"{name}+ differs from clamp_next(reference model)")
+                rec.violation(f"{PROP}:numpy vs reference model: {what} [options on: {_short(sorted(opts))}]",
+                              {"desc": desc, "pars": pars, "vals": vals, "opts": opts, "element": eid, "var": name, "index": i,
+                               "observed": x, "expected": y})
+                break
+
+
 def casadi_pairs(M, rec, rng, g, desc, pars, st, combo_list):
     symvals = O.SymVals(random.Random(1))
     _, v0 = g.values(desc, allow_inf=False)
@@ -175,6 +273,7 @@ def run(M, rec, tier, seed, k, n):
         full = it < (4 if tier == "quick" else 16)
         cl = allc if full else rng.sample(allc, 6)
         casadi_pairs(M, rec, rng, g, desc, pars, st, cl)
+    reference_pairs(M, rec, rng, g, 14 if tier == "quick" else 90)
 
 
 def finish(M, rec, write=True):
@@ -182,13 +281,18 @@ def finish(M, rec, write=True):
         for e in ("numpy", "SX", "MX"):
             rec.gate(rec.n_seen(f"combos_{e}") == 64, f"not all 64 option combinations exercised on {e} ({rec.n_seen(f'combos_{e}')})")
         rec.gate(rec.counters.get("scalars_compared", 0) > 0, "nothing compared")
+        for q_ in ("v", "rho", "w"):
+            rec.gate(q_ in rec.cover.get("negative_plain_quantities", set()),
+                     f"no case whose plain next {q_} is negative (nothing for the clamp to act on)")
     return rec.finish(
-        ["pairs_numpy", "pairs_casadi_compiled", "pairs_casadi_own_eval"],
+        ["pairs_numpy", "pairs_casadi_compiled", "pairs_casadi_own_eval", "pairs_reference"],
         ["combos_numpy", "combos_SX", "combos_MX"],
         rule="networks with all element kinds / random shape classes; inputs with ~30 % negative densities, speeds and queues; all 64 "
         "combinations of the six positivity options on NumPy (bitwise) and on SX/MX (via to_function at a random compactness level and via "
         "the monitor's own evaluation of the stepped expressions); expectation = clamp_next(plain(clamp_init(x))) computed with the same "
-        "engine; elements whose plain result is NaN are skipped and counted; distinct = option combinations per engine",
+        "engine; elements whose plain result is NaN are skipped and counted; plus a second oracle on non-negative stress inputs (slow traffic into a "
+        "jam, short fast sparse segments, unlimited ramps) whose plain next values are partly negative: all 64 combinations vs "
+        "clamp_next(scalar reference model); distinct = option combinations per engine",
         exhaustive=None,
         assumptions=["max(0, NaN) is not defined by the property: such elements are skipped"],
         write=write,
